@@ -29,6 +29,10 @@ claim("C06",
       "symbolic evaluation of every SQL builder (Sprintf/Join/Builder/per-case fragments) into statement templates, instantiation, parsing, and a WHERE-tree check that nid = ? is a top-level conjunct bound to NetworkID(ctx) of the context in scope (sub-selects correlated); receiver-chain analysis that every pop statement on the relationship table is rooted at queryWithNetwork; who-may-execute-statements; statelessness of NetworkID",
       "Decides that every statement on the relationship table is scoped by the request's network id and that names are hashed per network; does not decide contextualizer implementations or the database. Right level: network scoping is a shape fact of each statement's text and bindings.")
 
+claim("C04",
+      "table agreement between the write map (FromInternal/insertSubject), the read map (ToInternal) and db tags; symbolic evaluation + parsing of the INSERT/DELETE/SELECT builders and pop Where fragments with a per-placeholder check that the bound Go expression is the internal field stored in that column; guard check of whereQuery; def-use check that write handlers pass only Mapper().FromTuple results to the store and that FromTuple validates before appending; audit that persistence/sql keeps no process-local mutable state",
+      "Decides column-level write/read/match agreement, validated-input-only writes and the absence of process-local caches in the storage layer; does not decide database semantics or the multiset behaviour over histories. Right level: which Go field is bound to which column placeholder is a static fact of the builders.")
+
 for p in ["C04","C05","C06","C07","C08","C09","C11","C12","C13","C14","C16","C18","C19"]:
     na(p, NOTBUILT)
 na("C10", "semantic equivalence between the parser's output and TypeScript's grammar over all programs: precedence/associativity is not a code shape every correct parser shares; no sound structural necessary condition found (and the property is known to be violated: a||b&&c parses as (a||b)&&c), so a static green light would be misleading")
